@@ -43,8 +43,9 @@ fn main() {
         }
     }
     install_quiet_panic_hook();
-    let rep = Report::new(&prop, tier, seed);
+    let mut rep = Report::new(&prop, tier, seed);
     if let Some(path) = replay {
+        rep.strict = true;
         std::process::exit(vh::registry::replay(&rep, &path));
     }
     if !vh::registry::run(&rep) {
